@@ -60,8 +60,9 @@ def gen_attrs(rng) -> dict:
         a["alignment"] = (rng.choice(["left", "right", "center", "justified", "auto"]), rng.choice(["top", "middle", "bottom"]))
     if maybe(0.4):
         a["bg_color"] = (rng.randrange(256), rng.randrange(256), rng.randrange(256))
-    elif maybe(0.08):
-        a["bg_image"] = "cat.jpg"
+    elif maybe(0.15):
+        # file names that end alike (a lookup by suffix or prefix would confuse them), each with its own bytes
+        a["bg_image"] = rng.choice(["cat.jpg", "tomcat.jpg", "cat.jpg", "xcat.jpg", "at.jpg", "cat.jpg.jpg"])
     if maybe():
         a["font_color"] = rng.choice([(0, 0, 0), (255, 255, 255), (rng.randrange(256), rng.randrange(256), rng.randrange(256))])
     if maybe():
@@ -135,7 +136,7 @@ def gen_border(g, rng, tm, d=0, s=0, t=0) -> dict:
 
 def gen(seed: int, tier: str, idx=None):
     rng0 = substream(seed, "swarm")
-    cfg = {"property": PROPERTY, "aspects": ["grid", "names", "look"], "profile": "look", "_mix": {"s": 3, "i": 2, "f": 1, "b": 1}, "_long": False}
+    cfg = {"property": PROPERTY, "aspects": ["grid", "names", "look"], "profile": "look", "_mix": {"s": 3, "i": 2, "f": 1, "b": 1}, "_long": False, "writes_in_bounds": True}
     g = Gen(seed, tier, cfg)
     rng = g.rng
     if rng0.random() < 0.25:
@@ -188,6 +189,17 @@ def gen(seed: int, tier: str, idx=None):
                 g.emit({"op": "save", "d": 0, "slot": slot})
                 if rng.random() < 0.5:
                     g.emit({"op": "restart", "d": 0, "slot": slot})
+    if arm != "borders" and rng0.random() < 0.15:
+        # two background images whose file names end alike, both in use, in either order of creation
+        pair = rng.sample(["cat.jpg", "tomcat.jpg", "xcat.jpg", "at.jpg", "cat.jpg.jpg"], 2)
+        tm0 = g.ms.docs[0].model.sheets[0].tables[0]
+        for k, img in enumerate(pair):
+            at = gen_attrs(rng)
+            at.pop("bg_color", None)
+            at["bg_image"] = img
+            g.emit({"op": "add_style", "d": 0, "attrs": at, "name": None})
+            names_now = list(g.ms.docs[0].model.styles)
+            g.emit({"op": "set_style", "d": 0, "s": 0, "t": 0, "r": (k + 1) % tm0.nrows, "c": g.index(tm0.ncols), "style": len(names_now) - 1, "via": "set"})
     for _ in range(steps):
         kind = rng.choices(names, wts)[0]
         m = g.ms.docs[0].model
